@@ -161,6 +161,16 @@ extern "C" void w_c17_location(int empty, int kind, int nsub, unsigned g0, unsig
 {
     unsigned g[4] = {g0, g1, 0, 0};
     build(kind, INT, 0, nsub, g);
+    /* the walkers' summaries of the ROOT are the ones their contracts give: the union over the children (uses_fp / uses_hybrid /
+       uses_clock are proved to be exactly that in c17_uses_*), so code that asks the whole invariant sees consistent answers */
+    verif_nodes[0].g_a = false; verif_nodes[0].g_b = false; verif_nodes[0].g_c = false;
+    for (int i = 0; i < 2; i++) {
+        if (i < nsub) {
+            verif_nodes[0].g_a = verif_nodes[0].g_a || verif_nodes[i + 1].g_a;
+            verif_nodes[0].g_b = verif_nodes[0].g_b || verif_nodes[i + 1].g_b;
+            verif_nodes[0].g_c = verif_nodes[0].g_c || verif_nodes[i + 1].g_c;
+        }
+    }
     verif_nodes[1].kind = (kind_t)k0; verif_nodes[2].kind = (kind_t)k1;
     verif_nodes[1].value = v0; verif_nodes[2].value = v1;
     verif_nodes[1].dvalue = d0; verif_nodes[2].dvalue = d1;
